@@ -45,19 +45,22 @@ def run(chk):
     fn = m.fn("rotenc_decode")
     chk.note_fn(fn)
     F = fields(m)
-    for k in ("count", "internal_count"):
+    for k in ("internal_count",):
         if k not in F:
             raise AnalysisError("anchor vanished: rotenc_t.%s" % k)
     chk.rule("Q5", "two consecutive calls with states a then b, from ANY object content: the second call moves internal_count by the quadrature step a -> b and latches count exactly at the detent")
     rot.check_two_calls(chk, m, fn, F)
-    if "last_state" in F:
+    if "last_state" in F and "count" in F:
         rot.check_decode(chk, m, fn, F)
     else:
         # the decoder no longer stores the previous state under that name: the single-call rules Q1/Q2 (stated over that field)
         # have no anchor; Q5 has decided the same behaviour over two calls
         rot.check_instance_state(chk, m, fn)
-    check_q3(chk, fields)
-    check_q4(chk, m, F)
+    if "count" in F:
+        check_q3(chk, fields)
+        check_q4(chk, m, F)
+    # (without a member called count the same two clauses are decided through the API in Q5: rotenc_count() after arriving at the
+    # detent, and rotenc_count14() in that state)
 
 
 def check_q3(chk, fields):
